@@ -238,7 +238,7 @@ fn oracle(inp: &PV, out: &PV) -> T {
 }
 
 pub fn jobs(tier: Tier, _seed: u64) -> Vec<Job> {
-    let per_job = Duration::from_secs(if tier == Tier::Quick { 60 } else { 900 });
+    let per_job = Duration::from_secs(if tier == Tier::Quick { 60 } else { 600 });
     let cfg = base_cfg(tier);
     let (nmax, mmax) = if tier == Tier::Quick { (5usize, 3usize) } else { (6usize, 4usize) };
     let mut out = vec![];
